@@ -75,6 +75,7 @@ func operands(sc scopeKind, full bool) []operand {
 		{"arr:temp", Bin("+", L(I(1)), L(I(2)))},
 		{"arr:computed", L(I(1), Bin("+", I(1), I(1)))},
 		{"arr:slice", Ix2(L(I(0), I(1), I(2)), I(1), I(3))},
+		{"float:nan", Call("aton", S("NaN"))},
 		{"err:type", Un("!", I(2))},
 		{"err:zero", Bin("/", I(1), I(0))},
 		{"err:index", Ix(L(I(1)), I(5))},
